@@ -125,6 +125,9 @@ class simple_token(namedtuple("simple_token", "type,string")):
             return ast.literal_eval(self.string) == ast.literal_eval(
                 other.string
             ) and self.string.replace("'", '"') == other.string.replace("'", '"')
+        elif self.type == other.type == token.NUMBER:
+            # black normalizes 1e+16 to 1e16
+            return self.string.replace("e+", "e") == other.string.replace("e+", "e")
         else:
             return super().__eq__(other)
 
